@@ -94,6 +94,9 @@ type Event struct {
 	// context it came with was still alive
 	At   uint64 `json:"at,omitempty"`
 	Live bool   `json:"live,omitempty"`
+	// a proposal request whose graffiti is not one of the harness's small integers: the 32 bytes as
+	// the (decimal) number they spell, big endian
+	Big string `json:"big,omitempty"`
 }
 
 // Cuts: which sequential answers of Propose the providers cut short with the context's error
@@ -121,6 +124,8 @@ type recorder struct {
 	t0     uint64
 	cut    Cuts
 	subCut bool
+	// how often the node was asked for its client string
+	nodeClient int
 }
 
 func (r *recorder) now() uint64 { return uint64(time.Since(r.start) / time.Millisecond) }
@@ -822,6 +827,7 @@ func (w *world) begin(proposing bool) {
 	w.rec.calls = make([][]Call, len(w.in.Relays))
 	w.rec.submit = nil
 	w.rec.t0, w.rec.cut, w.rec.subCut = 0, Cuts{}, false
+	w.rec.nodeClient = 0
 	w.rec.mu.Unlock()
 }
 
@@ -1001,6 +1007,9 @@ func (g graffiti) Graffiti(ctx context.Context, slot phase0.Slot, idx phase0.Val
 	if g.w.in.Graffiti == "err" {
 		return nil, errors.New("scripted graffiti failure")
 	}
+	if g.w.in.GraffitiText != nil {
+		return []byte(*g.w.in.GraffitiText), nil
+	}
 	return graffitiOf(g.w.in.GraffitiVal), nil
 }
 
@@ -1117,6 +1126,7 @@ func (w *world) Proposal(ctx context.Context, opts *api.ProposalOpts) (*api.Resp
 		boost = *opts.BuilderBoostFactor
 	}
 	w.rec.addCtx(ctx, "proposal", uint64(opts.Slot), get(opts.RandaoReveal[:]), get(opts.Graffiti[:]), boost)
+	w.rec.bigGraffiti(opts.Graffiti[:])
 	err := serve(ctx, w.in.LatProposal)
 	w.rec.answered(&w.rec.cut.Proposal, err)
 	if err != nil {
